@@ -7,10 +7,10 @@ Import ListNotations.
 Open Scope Z_scope.
 
 Record cst := { lastp : list Z; probes_sent : list Z; lasttx : option (Z * Z) (* size, segment size of the transmit since the last probe *) }.
-Record st := { cs : list (key * cst); gso : Z; upper : Z }.
+Record st := { cs : list (key * cst); gso : Z; upper : Z; imtu : Z }.
 Definition getc (s : st) (k : key) : cst :=
   match aget (cs s) k with Some c => c | None => {| lastp := []; probes_sent := []; lasttx := None |} end.
-Definition setc (s : st) (k : key) (c : cst) : st := {| cs := aset (cs s) k c; gso := gso s; upper := upper s |}.
+Definition setc (s : st) (k : key) (c : cst) : st := {| cs := aset (cs s) k c; gso := gso s; upper := upper s; imtu := imtu s |}.
 
 Definition mem (x : Z) (l : list Z) : bool := existsb (Z.eqb x) l.
 
@@ -33,6 +33,8 @@ Definition step (s : st) (r : list Z) : option st :=
        match lastp c with
        | [] => true
        | p => (mtu <=? pf p 7) || mem mtu (probes_sent c)
+              (* a NEW path (the remote address changed) starts again from the configured initial MTU *)
+              || (negb (premote p =? premote r) && (mtu <=? Z.max 1200 (imtu s)))
        end
     then Some (setc s k {| lastp := r; probes_sent := probes_sent c; lasttx := None |})
     else None
@@ -66,4 +68,4 @@ Definition step (s : st) (r : list Z) : option st :=
   else Some s.
 
 Definition monitor (i : ops) (o : outs) : option Z :=
-  snd (run_from step 0 {| cs := []; gso := Z.max 1 (param i 32 1); upper := param i 31 0 |} o).
+  snd (run_from step 0 {| cs := []; gso := Z.max 1 (param i 32 1); upper := param i 31 0; imtu := param i 29 1200 |} o).
